@@ -41,6 +41,14 @@ def gen_reverse(rng, n):
     wf = {'name': 'main', 'short': 'main', 'type': 'reverse', 'lang': 'yaql',
           'tasks': tasks, 'input': [{'x': 1}], 'target': target,
           'path_input': False}
+    if n > 1 and rng.random() < 0.35:
+        # prerequisites through 'task-defaults: requires' (every task other
+        # than r0 requires r0 in addition to what it declares itself)
+        wf['task_defaults'] = {'requires': ['r0']}
+        for t in tasks:
+            t['own_requires'] = list(t.get('requires') or [])
+            if t['name'] != 'r0':
+                t['requires'] = sorted(set(t['own_requires']) | {'r0'})
     return {'workflows': [wf], 'workbook': None}
 
 
